@@ -745,10 +745,11 @@ def gen_misc(repo, report):
     note('CacheLayer._detect_impure', 'layers/cache.py', fn, src)
     out.append(f'Definition trav_detect_impure : trav_shape := {traversal_shape(path, fn, None, ["visited"])}.')
     n = norm(fn.body)
-    if 'ifisinstance(node.edge,ImpureEdge):\nraiseValueError(' not in n:
-        fail(path, fn, '_detect_impure must raise on ImpureEdge')
-    if 'forparentinnode.parents:\nCacheToStorage._detect_impure(parent,name' not in n:
-        fail(path, fn, '_detect_impure must visit every parent')
+    want = ("ifvisitedisNone:\nvisited=set()\nifnode.is_leafornodeinvisited:\nreturn\nvisited.add(node)\n"
+            "ifisinstance(node.edge,ImpureEdge):\nraiseValueError(f'Youaretryingtocachethefield\"{name}\",whichhasan`impure`dependency-\"{node.name}\"')\n"
+            "forparentinnode.parents:\nCacheToStorage._detect_impure(parent,name,visited)")
+    if n != want:
+        fail(path, fn, '_detect_impure changed (expected: stop at leaves and visited nodes, raise on ImpureEdge, visit every parent)')
     out.append('Definition detect_impure_rule : string := "raise on ImpureEdge; visit every parent".')
     path = os.path.join(C, 'engine/base.py')
     src, tree = parse(path)
